@@ -199,7 +199,7 @@ EmbeddedCases(cl, a, R) ==
         e \in {x \in {<<[j \in 1..L |-> IF j \in p..(p + 4) THEN ExcReplyTo("rtu", a, code)[j - p + 1] ELSE R[j]], p>> :
                         p \in 2..(L - 4), code \in {1, 2, 4}} : BadTrailer(x[1])}}
 C12Cases(z) ==
-    UNION {CorruptCases(cl, a, ReplyTo("rtu", a, <<2, 2>>)) : cl \in {"rtu", "serial"}, a \in ReqShapes("s")}
+    UNION {CorruptCases(cl, a, ReplyTo("rtu", a, <<2, 2>>)) : cl \in {"rtu", "serial"}, a \in ReqShapes("s") \cup (IF Thorough THEN ReqShapes("m") ELSE {})}
     \cup UNION {EmbeddedCases(cl, a, ReplyTo("rtu", a, <<6, 6>>)) : cl \in {"rtu", "serial"}, a \in ReqShapes("m")}
     \cup UNION {CorruptCases(cl, a, ExcReplyTo("rtu", a, code)) : cl \in {"rtu", "serial"},
                  a \in {x \in ReqShapes("s") : x.fc \in {3, 16, 17}}, code \in (IF Thorough THEN ExcCodesStd ELSE {2, 11})}
